@@ -633,3 +633,18 @@ def install():
     jade.jobs.results_aggregator.SoftFileLock = simlock.SimSoftFileLock
     jade.resource_monitor.psutil = proc.PsutilStub()
     setup_logging_base()
+
+    # observation point (behaviour unchanged): the instant at which a one-shot event
+    # consolidation reads the per-process event files
+    _orig_consolidate = jade.events.EventsSummary._consolidate_events
+
+    def _consolidate_events(self):
+        w = kernel.W
+        if w is not None and w.cur is not None and not w.observer:
+            import glob
+
+            pend = sorted(w.rel(x) for x in glob.glob(os.path.join(str(self._output_dir), "job-outputs", "*", "events.log")))
+            w.emit("consolidate_begin", w.cur, out=w.rel(str(self._output_dir)), pending=pend)
+        return _orig_consolidate(self)
+
+    jade.events.EventsSummary._consolidate_events = _consolidate_events
